@@ -144,6 +144,8 @@ static Json outcome_json(const Ctx &c) {
 
 // Execute one plan in a forked child (fresh copy of the driver's address
 // space); sanitizer reports and signals are captured and classified.
+// seconds after which a run counts as hung (VERIF_HANG_SECONDS overrides the harness's figure, for diagnosis)
+static unsigned hang_limit(const Json &plan) { const char *e = getenv("VERIF_HANG_SECONDS"); if (e && atoi(e) > 0) return (unsigned)atoi(e); return H->time_limit(plan); }
 static Outcome evaluate(const Json &plan, bool verbose = false) {
     Outcome o;
     int pfd[2];
@@ -159,7 +161,7 @@ static Outcome evaluate(const Json &plan, bool verbose = false) {
     if (pid == 0) {
         close(pfd[0]);
         if (!verbose) dup2(efd, 2);
-        alarm(H->time_limit(plan.get("plan")));
+        alarm(hang_limit(plan.get("plan")));
         Ctx c; c.prop = plan.gets("property", O.prop); c.verbose = verbose;
         H->exec(plan.get("plan"), c);
         std::string t = outcome_json(c).str();
@@ -398,7 +400,7 @@ static void worker_loop(int w, int W, uint64_t start_k, uint64_t total, Slot *sl
         slot->inflight.store(idx + 1);
         Json plan = gen_plan(idx);
         Ctx c; c.prop = O.prop; c.pin_slot = slot->pin; c.pin_slot_size = sizeof slot->pin;
-        alarm(2 * H->time_limit(plan));
+        alarm(2 * hang_limit(plan));
         H->exec(plan, c);
         alarm(0);
         ++evaluations; execs += c.execs ? c.execs : 1; steps += c.steps; faults += c.faults_fired;
